@@ -72,7 +72,8 @@ def lazy_view(table, own):
                 try:
                     v = getattr(atom, name)
                     if name == "xray":
-                        v = dict(obj=deep(v, own), sftable=deep(v.sftable, own))
+                        tab_ = deep(v.sftable, own)     # (read first: the object caches it)
+                        v = dict(obj=deep(v, own), sftable=tab_)
                     d = deep(v, own)
                 except Exception as e:  # noqa
                     d = "raises " + type(e).__name__
@@ -92,11 +93,104 @@ def lazy_breadth(fail):
         text.append("%s.%s(qall)" % (mod.__name__.split(".")[-1], fn))
     pv, qv = lazy_view(pt.elements, "public"), lazy_view(t, "qall")
     bad = [k for k in pv if pv[k] != qv.get(k)]
-    for k in bad[:40]:
+    for k in per_group(bad):
         group = k.rsplit(".", 1)[1]
         fail("C10:fresh-private-differs:atoms:%s" % group, "after [%s], qall.%s serves %s; elements.%s serves %s  (%d such values)"
              % ("; ".join(text), k, qv.get(k, "nothing")[:160], k, pv[k][:160], len(bad)), history_text=list(text), key=k)
     return len(pv)
+
+
+def per_group(keys, n=2):
+    """the first n keys of each property group"""
+    out, cnt = [], {}
+    for k in keys:
+        g = k.rsplit(".", 1)[1]
+        cnt[g] = cnt.get(g, 0) + 1
+        if cnt[g] <= n:
+            out.append(k)
+    return out
+
+
+def edit_in_place(v, seen, depth=0):
+    """edit every container reachable from a served value in place (arrays rescaled, list and dict entries replaced);
+    objects are only walked, their attributes are not re-assigned.  Returns the number of containers edited."""
+    import numpy as np
+    from periodictable import core
+    if v is None or isinstance(v, (bool, int, float, complex, str, core.Element, core.Isotope, core.Ion, core.PeriodicTable)) or id(v) in seen or depth > 6:
+        return 0
+    seen.add(id(v))
+    if isinstance(v, np.ndarray):
+        if v.size and v.flags.writeable and v.dtype.kind in "fc":
+            v[...] = v * 0.5 + 1.0
+            return 1
+        return 0
+    n = 0
+    if isinstance(v, list):
+        for i, x in enumerate(v):
+            if isinstance(x, (int, float)) and not isinstance(x, bool):
+                v[i] = 12345.0
+                n = 1
+            else:
+                n += edit_in_place(x, seen, depth + 1)
+        return n
+    if isinstance(v, dict):
+        for k, x in list(v.items()):
+            if isinstance(x, (int, float, str)) and not isinstance(x, bool):
+                v[k] = 12345.0
+                n = 1
+            else:
+                n += edit_in_place(x, seen, depth + 1)
+        return n
+    if isinstance(v, tuple):
+        return sum(edit_in_place(x, seen, depth + 1) for x in v)
+    if hasattr(v, "__dict__"):
+        return sum(edit_in_place(x, seen, depth + 1) for x in vars(v).values())
+    return 0
+
+
+def edit_breadth(fail):
+    """every container served by a fully initialised private table is edited in place; the public table, and a private
+    table initialised afterwards, serve what the public table served before"""
+    import periodictable as pt
+    from periodictable import core, mass, density, nsf, xsf, covalent_radius, crystal_structure, magnetic_ff, activation
+    inits = ((mass, "init"), (density, "init"), (nsf, "init"), (xsf, "init"), (xsf, "init_spectral_lines"), (covalent_radius, "init"),
+             (crystal_structure, "init"), (magnetic_ff, "init"), (activation, "init"))
+    pv = lazy_view(pt.elements, "public")
+    t = core.PeriodicTable("qedit")
+    for mod, fn in inits:
+        getattr(mod, fn)(t)
+    seen, edited, per = set(), 0, {}
+    for el in t:
+        atoms = [el] + [el[a] for a in sorted(set(el.isotopes[:1] + el.isotopes[-1:]))] + ([el.ion[el.ions[0]]] if el.ions else [])
+        for atom in atoms:
+            for name in LAZY:
+                try:
+                    v = getattr(atom, name)
+                    k = edit_in_place(v, seen)
+                    if name == "xray":
+                        k += edit_in_place(v.sftable, seen)
+                except Exception:  # noqa
+                    k = 0
+                edited += k
+                per[name] = per.get(name, 0) + k
+    text = ["qedit = PeriodicTable('qedit')", "every property group initialised on qedit",
+            "every array, list and dictionary served by qedit's atoms edited in place (%d containers)" % edited]
+    after = lazy_view(pt.elements, "public")
+    bad = [k for k in pv if pv[k] != after[k]]
+    for k in per_group(bad):
+        fail("C10:public-changed-by-private-edit:in-place:%s" % k.rsplit(".", 1)[1], "after [%s], elements.%s serves %s; before it served %s  (%d such values)"
+             % ("; ".join(text), k, after[k][:160], pv[k][:160], len(bad)), history_text=list(text), key=k)
+    t2 = core.PeriodicTable("qlater")
+    for mod, fn in inits:
+        getattr(mod, fn)(t2)
+    lv = lazy_view(t2, "qlater")
+    pub_as_later = {k: v.replace("@public", "@OWN") for k, v in pv.items()}
+    bad2 = [k for k in pv if pub_as_later[k] != lv.get(k)]
+    for k in per_group(bad2):
+        fail("C10:fresh-private-differs:after-in-place-edit:%s" % k.rsplit(".", 1)[1], "after [%s; qlater = PeriodicTable('qlater'), every group initialised], "
+             "qlater.%s serves %s; the public table served %s  (%d such values)" % ("; ".join(text), k, lv.get(k, "nothing")[:160], pv[k][:160], len(bad2)),
+             history_text=list(text), key=k)
+    return dict(containers_edited=edited, per_group=per)
 
 
 def main():
@@ -227,7 +321,14 @@ def main():
         nlazy = 0
         fail("C10:fresh-private-differs:raises", "initialising every property group on a fresh private table and reading it raised %s: %s"
              % (type(e).__name__, e), trace=traceback.format_exc()[-600:])
-    json.dump(dict(direct_fails=fails, stats=dict(tables=len(tables), elements=len(pub0), lazy_values_compared=nlazy)), sys.stdout)
+    try:
+        edits = edit_breadth(fail)
+    except Exception as e:  # noqa
+        import traceback
+        edits = {}
+        fail("C10:public-changed-by-private-edit:in-place:raises", "editing every container of a private table in place and re-reading the public "
+             "table raised %s: %s" % (type(e).__name__, e), trace=traceback.format_exc()[-600:])
+    json.dump(dict(direct_fails=fails, stats=dict(tables=len(tables), elements=len(pub0), lazy_values_compared=nlazy, in_place=edits)), sys.stdout)
 
 
 main()
